@@ -229,6 +229,16 @@ pub fn run_pipeline(
     }
 
     if cl.is_single_and_builtin() {
+        // the builtin ran in the shell itself: nobody else closes the
+        // capture pipes
+        if let Some(fds) = fds_capture_stdout {
+            libs::close(fds.0);
+            libs::close(fds.1);
+        }
+        if let Some(fds) = fds_capture_stderr {
+            libs::close(fds.0);
+            libs::close(fds.1);
+        }
         return (false, cmd_result);
     }
 
